@@ -485,3 +485,60 @@ Definition c08_hyp (w : workload) : nat :=
   | WSingle _ _ _ _ | WTriple _ _ => 0
   | WProduct _ nd ws nr _ => code [names_ok_b nd ws nr]
   end.
+
+(* ------------------------------------------------------------------ deaths by unwinding *)
+(* A process that dies because an exception travels up its stack (KeyboardInterrupt from SIGINT, SystemExit from a
+   SIGTERM handler, an exception nobody catches) runs its handlers, __exit__ methods and finally blocks on the way,
+   and these may issue further file operations.  What such a death leaves is therefore NOT a prefix of the operation
+   list by construction.  The model says what the abort path of the catalog creation does; the checker decides, for
+   the state an interrupted run really left, whether SOME crash point of the uninterrupted run leaves the same
+   state (then the theorems about crash points speak about it).
+
+   write_patches interrupted when the first j pieces have been handed to the writer:
+   fin = false: the abort path (CatalogWriter.__exit__ with an exception; AbortQueue sent to the writer process):
+                the patch writers are closed, nothing else is written;
+   fin = true : the code of the regular end runs on the abort path as well (the end-of-queue sentinel from a
+                finally block): finalize writes patch_ids.bin for what has arrived *)
+Definition ops_create_unwound (fin : bool) (j : nat) (ps : list piece) : list fop :=
+  ops_create_body (firstn j ps) ++ (if fin then ops_create_ids (firstn j ps) else []).
+Definition ops_overwrite_unwound (fin : bool) (order : list path) (j : nat) (ps : list piece) : list fop :=
+  map Del order ++ ops_create_unwound fin j ps.
+
+(* states given as association lists, compared on a finite universe of paths *)
+Definition ocontent_beq (a b : option content) : bool :=
+  match a, b with Some x, Some y => content_beq x y | None, None => true | _, _ => false end.
+Definition fs_eq_on (u : list path) (s1 s2 : fs) : bool := forallb (fun p => ocontent_beq (s1 p) (s2 p)) u.
+Definition universe (l0 : list (path * content)) (ops : list fop) (l : list (path * content)) : list path :=
+  map fst l0 ++ map op_path ops ++ map fst l.
+(* is l the state SOME prefix of ops leaves, starting from l0? *)
+Definition prefix_state_b (l0 : list (path * content)) (ops : list fop) (l : list (path * content)) : bool :=
+  existsb (fun k => fs_eq_on (universe l0 ops l) (apply (firstn k ops) (fs_of l0)) (fs_of l)) (seq 0 (S (length ops))).
+
+Definition w_s0l (w : workload) : list (path * content) :=
+  match w with
+  | WCreate _ | WCreateB _ => []
+  | WOverwriteB l _ _ | WOverwrite l _ _ | WMeta l | WBuild l _ _ _ | WSingle l _ _ _ | WTriple l _ | WProduct l _ _ _ _ => l
+  end.
+
+(* outcome class of an ARBITRARY left-over state s (w_class is this at s = the state after k operations) *)
+Definition w_class_at (fixed : bool) (w : workload) (s : fs) (req : nat) : nat :=
+  let s0 := w_s0 w in
+  let sf := apply (w_ops fixed w) s0 in
+  match w with
+  | WCreate _ | WOverwrite _ _ _ | WMeta _ | WCreateB _ | WOverwriteB _ _ _ =>
+      classify obs_beq (recover_cat fixed s) (recover_cat fixed s0) (recover_cat fixed sf)
+  | WBuild _ ies _ _ =>
+      let ids := ids_of s0 in
+      classify nlist_eqb (measure s ids req) (Ok (map (fun _ => req) ids)) (Ok (map (fun _ => req) ids))
+  | WSingle _ _ _ _ => classify pair_beq (recover_single s) (recover_single s0) (recover_single sf)
+  | WTriple _ _ => classify pair_beq (recover_triple s) (recover_triple s0) (recover_triple sf)
+  | WProduct _ _ _ nr _ => classify nlist_eqb (recover_product nr s) (recover_product nr s0) (recover_product nr sf)
+  end.
+
+(* one interrupted run: l = what it left on disk.  flag0 = the model's recovery of that state gives the class the
+   real recovery gave; flag1 = the property itself (never class 1); flag2 (when chk) = the state is one a crash at a
+   system call of the uninterrupted run leaves as well *)
+Definition c08_unwound (fixed : bool) (w : workload) (l : list (path * content)) (req impl_class : nat) (chk : bool) : nat :=
+  code [w_class_at fixed w (fs_of l) req =? impl_class; negb (impl_class =? 1);
+        negb chk || prefix_state_b (w_s0l w) (w_ops fixed w) l].
+
